@@ -137,6 +137,8 @@ CLAIMS = {
 NOT_APPLICABLE = {
     "C12": "segment lengths come from numpy trig and ndarray filtering; cannot be kept symbolic "
            "without replacing numpy by our own model",
+    "C14": "the substance (bytes reaching files/streams, flush/teardown, io objects, the file system) lives "
+           "in C-implemented io; with stubbed streams only the writer-list bookkeeping would remain",
     "C16": "property is about real thread schedules (threading.Event, reader thread, polling); no "
            "symbolic engine here executes multi-threaded Python",
     "C18": "regex/strip/lower/float() parsing of symbolic strings does not confirm any path within "
